@@ -3,12 +3,12 @@
 package ethereum
 
 import (
-	"sync/atomic"
 	"bytes"
 	"context"
 	"fmt"
 	"os"
 	"sync"
+	"sync/atomic"
 	"testing"
 	"time"
 
@@ -257,7 +257,9 @@ func runC10(c c10Case) (*vh.Violation, vh.Outcome) {
 			found0 := countLog("found new message publication transaction")
 			matched := sim.publish(t)
 			sim.mu.Unlock()
-			if matched > 0 && !waitFor(3*time.Second, func() bool { return countLog("found new message publication transaction") >= found0+matched || diedNow() }) {
+			if matched > 0 && !waitFor(3*time.Second, func() bool {
+				return countLog("found new message publication transaction") >= found0+matched || diedNow()
+			}) {
 				return inconclusive("log-not-consumed")
 			}
 			if countLog("found new message publication transaction") < found0+matched {
@@ -311,7 +313,9 @@ func runC10(c c10Case) (*vh.Violation, vh.Outcome) {
 				sim.mu.Unlock()
 				out.Labels = append(out.Labels, "remined-with-notifications")
 				reorgOrJump = true
-				if matched > 0 && !waitFor(3*time.Second, func() bool { return countLog("found new message publication transaction") >= found0+matched || diedNow() }) {
+				if matched > 0 && !waitFor(3*time.Second, func() bool {
+					return countLog("found new message publication transaction") >= found0+matched || diedNow()
+				}) {
 					return inconclusive("log-not-consumed")
 				}
 				if countLog("found new message publication transaction") < found0+matched {
